@@ -214,6 +214,14 @@ def io_fault(fault: int, point: int, second: int) -> bool:
             attempt(f)
             if f2 < len(FAULTS):
                 attempt(FAULTS[f2])
+            # nothing of the failed connections is consumed for good: no closed connection stays in the tables, its socket is closed
+            WORLD.advance(n, 1)
+            stale = [c0 for c0 in n.connections.values() if c0.state == B.PEER_CLOSED]
+            open_dead = [sk for sk in WORLD.socks if sk.kind == "conn" and not sk.closed and not any(v is sk for v in n.peer_sockets.values())]
+            if stale:
+                why = "a connection that has ended (state CLOSED, %d unsent bytes) is still tracked by the node" % len(stale[0].write_buffer)
+            elif open_dead:
+                why = "the socket of a connection that is gone was never closed"
             # reconnect-and-serve probe through the real I/O loop
             s = VSock(WORLD)
             b.listener.backlog.append(s)
@@ -222,7 +230,9 @@ def io_fault(fault: int, point: int, second: int) -> bool:
             h.settle()
             got = [(m.header.command_code, getattr(m, "result_code", None)) for m in WORLD.frames(s.out)]
             s.out = b""
-            if got != [(257, 2001)]:
+            if why:
+                pass
+            elif got != [(257, 2001)]:
                 why = "probe CER answered %r" % (got,)
             else:
                 app = h.app
